@@ -17,11 +17,32 @@ const c15Rule = "case = 2..3 segments (built / loaded / merged) + caller-owned b
 	"(set AND representation equality for bitmaps); non-trivial = the history contains a merge with a non-empty drop bitmap followed by a re-observation of its inputs; distinct = hash of case text + history"
 
 type segSnap struct {
-	obs   *XSeg
-	bytes []byte
+	obs    *XSeg
+	bytes  []byte
+	footer string // what the footer accessors report
+}
+
+func footerView(s segment.Segment) string {
+	type fv interface {
+		CRC() uint32
+		NumDocs() uint64
+		ChunkMode() uint32
+		Version() uint32
+		FieldsIndexOffset() uint64
+		StoredIndexOffset() uint64
+		DocValueOffset() uint64
+		Size() int
+	}
+	f, ok := s.(fv)
+	if !ok {
+		return ""
+	}
+	return fmt.Sprintf("crc=%08x numDocs=%d chunkMode=%d version=%d fieldsIdx=%d storedIdx=%d dvOffset=%d size=%d",
+		f.CRC(), f.NumDocs(), f.ChunkMode(), f.Version(), f.FieldsIndexOffset(), f.StoredIndexOffset(), f.DocValueOffset(), f.Size())
 }
 
 func snapSeg(s segment.Segment) (*segSnap, error) {
+	fv := footerView(s) // before anything else touches the segment
 	o, err := Observe(s, ProbeFields, AllFacets)
 	if err != nil {
 		return nil, err
@@ -30,7 +51,7 @@ func snapSeg(s segment.Segment) (*segSnap, error) {
 	if err != nil {
 		return nil, err
 	}
-	return &segSnap{o, b}, nil
+	return &segSnap{o, b, fv}, nil
 }
 
 type bmSnap struct {
@@ -101,6 +122,9 @@ func c15Prop(st *CaseStats) func(t *rapid.T) {
 				}
 				if d := DiffObs(snaps[i].obs, now.obs, AllFacets); d != "" {
 					t.Fatalf("%s history%s:\n  SEG%d changed: %s", desc, hist, i, d)
+				}
+				if snaps[i].footer != now.footer {
+					t.Fatalf("%s history%s:\n  SEG%d reports a different footer / size than before: %s -> %s", desc, hist, i, snaps[i].footer, now.footer)
 				}
 				if !bytes.Equal(snaps[i].bytes, now.bytes) {
 					t.Fatalf("%s history%s:\n  SEG%d persists different bytes than before (first difference at %d)", desc, hist, i, firstDiff(snaps[i].bytes, now.bytes))
